@@ -437,6 +437,51 @@ theorem produced_taken_xor_closed (evs : List Produced.Ev) (s : Produced.St)
   · exact Or.inr ⟨h1, fun h2 => hdis n h2 n h1 rfl⟩
   · simp at h1
 
+/-- Multishot accept ending with a TERMINAL SUCCESSFUL completion (`complete true` after any number of
+`shot`s: the polling driver and kernels < 5.19 for every accept, io_uring when the completion queue
+overflows): `set_result` has adopted the last descriptor into the finished op, which owns it until the
+stream takes the op back (`poll` = `try_take().into_inner()`). At that hand-over everything the op held
+moves to the caller and nothing stays behind in the op — exactly one of {op, stream} owns each
+descriptor before and after, so dropping the finished op later closes nothing the caller holds. -/
+theorem terminal_success_handover (evs : List Produced.Ev) (s s' : Produced.St)
+    (hk : ∀ e ∈ evs, e ≠ .completeFallback) (h : Produced.run Produced.init evs = some s)
+    (hf : s.fut = .submitted) (hr : s.result = some true) (hp : Produced.step s .poll = some s') :
+    s'.held = [] ∧ s'.taken = s.taken ++ s.held ∧ s'.closed = s.closed ∧
+      (s'.taken ++ s'.closed ++ s'.held).Nodup := by
+  have hs' : Produced.run Produced.init (evs ++ [.poll]) = some s' := by
+    have : ∀ (s0 : Produced.St) (l : List Produced.Ev), Produced.run s0 l = some s →
+        Produced.run s0 (l ++ [.poll]) = some s' := by
+      intro s0 l
+      induction l generalizing s0 with
+      | nil => intro h0; simp [Produced.run] at h0; subst h0; simp [Produced.run, hp]
+      | cons e es ih =>
+        intro h0
+        simp only [Produced.run, List.cons_append] at h0 ⊢
+        split at h0
+        · next s1 h1 => exact ih s1 h0
+        · cases h0
+    exact this _ _ h
+  have hnd := (produced_exactly_one_owner (evs ++ [.poll]) s'
+    (by intro e he; simp at he; rcases he with he | he; exact hk e he; subst he; simp) hs').1
+  simp only [Produced.step, hf, hr] at hp
+  cases hp
+  exact ⟨rfl, rfl, rfl, hnd⟩
+
+/-- polling-driver `incoming()`: three accepts, each a terminal success, stream re-armed in between,
+dropped while the fourth accept is in flight -/
+example : ∃ s, Produced.run Produced.init
+    [.poll, .complete true, .poll, .rearm, .pollImm true, .rearm, .poll, .complete true, .poll, .rearm, .poll,
+     .dropFut, .complete false] = some s ∧
+    s.finished ∧ s.taken = [0, 1, 2] ∧ s.closed = [] := by
+  refine ⟨_, rfl, ?_⟩
+  unfold Produced.St.finished
+  decide
+
+/-- io_uring, completion queue overflow: two multishot deliveries, then the terminal success -/
+example : ∃ s, Produced.run Produced.init
+    [.poll, .shot, .shot, .complete true, .popShot, .popShot, .poll, .rearm, .poll] = some s ∧
+    s.taken = [0, 1, 2] ∧ s.held = [] ∧ s.closed = [] := ⟨_, rfl, by decide⟩
+
 example : ∃ s, Produced.run Produced.init [.poll, .dropFut, .complete true] = some s ∧
     s.finished ∧ s.closed = [0] ∧ s.taken = [] := by
   refine ⟨_, rfl, ?_⟩
